@@ -19,6 +19,9 @@ pub struct ShapeSpec {
     pub style: u64,
     pub writes: usize,
     pub snapshots: usize,
+    /// after two thirds of the writes, contiguous key ranges are sunk to different depths
+    /// (levels 1-6) with the level-by-level manual compaction; the rest of the writes lands on top
+    pub deep: bool,
 }
 
 impl ShapeSpec {
@@ -40,13 +43,14 @@ impl ShapeSpec {
             style,
             writes: rng.range(150, 1200) as usize,
             snapshots: rng.range(0, 4) as usize,
+            deep: idx % 3 == 2,
         }
     }
     pub fn describe(&self) -> Value {
         let style = ["random-churn", "phased bulk/compact/overlay/tombstone-runs", "hot-keys many versions", "descending load + alternating deletes"][self.style as usize];
         json!({"keys": self.family.name(), "pool": self.pool_size, "config": self.cfg.describe(),
             "style": style,
-            "writes": self.writes, "snapshots_during_build": self.snapshots})
+            "writes": self.writes, "snapshots_during_build": self.snapshots, "ranges_sunk_to_levels_1_to_6": self.deep})
     }
 }
 
@@ -163,8 +167,26 @@ pub fn build(rng: &mut Rng, sess: &mut Session, spec: &ShapeSpec) -> Built {
         }
     }
     let mut next_snap = 0usize;
+    let sink_at = if spec.deep { plan.len() * 2 / 3 } else { usize::MAX };
     for (i, ops) in plan.into_iter().enumerate() {
         watch::tick();
+        if i == sink_at {
+            // cut the key space into 2-6 contiguous ranges and sink each to its own depth
+            let mut sorted = pool.clone();
+            sorted.sort();
+            sorted.dedup();
+            let parts = rng.range(2, 6) as usize;
+            let mut cuts: Vec<Vec<u8>> = (1..parts).map(|_| rng.pick(&sorted).clone()).collect();
+            cuts.sort();
+            cuts.dedup();
+            let mut lower: Option<Vec<u8>> = None;
+            for j in 0..=cuts.len() {
+                let upper = cuts.get(j).cloned();
+                let depth = rng.range(1, 6) as usize;
+                sess.sink(lower.as_deref(), upper.as_deref(), depth);
+                lower = upper;
+            }
+        }
         while next_snap < snap_points.len() && snap_points[next_snap] <= i {
             let snapshot = sess.db().get_snapshot();
             built.frozen.push(Frozen {
